@@ -29,6 +29,29 @@ def key(path):
     return strip_generics(path)
 
 
+def short_key(body_or_path, is_method=None):
+    """Position-independent identity of a function: `Type::method` for methods, the bare name for free functions, so that an item
+    moved to another module of the crate is still the baseline function it was."""
+    if isinstance(body_or_path, str):
+        segs = [x for x in strip_generics(body_or_path).split("::") if x]
+        return "::".join(segs[-2:]) if is_method else segs[-1]
+    b = body_or_path
+    segs = [x for x in strip_generics(b.path).split("::") if x]
+    if b.kind == "method":
+        return "::".join(segs[-2:])
+    return segs[-1] if segs else b.path
+
+
+_SHORT = None
+
+
+def baseline_short():
+    global _SHORT
+    if _SHORT is None:
+        _SHORT = set(json.load(open(os.path.join(HERE, "baseline_short.json"))))
+    return _SHORT
+
+
 def _fn_value_refs(body):
     """Paths of functions used as values (not as the callee of a call) in a body."""
     out = set()
@@ -64,7 +87,7 @@ def normalise(F):
             continue
         if b.parent.get("trait") or b.parent.get("kind") == "trait":
             continue
-        if key(p) in base:
+        if key(p) in base or short_key(b) in baseline_short():
             continue
         helpers[p] = b
     F.inlined_helpers = []
